@@ -92,6 +92,9 @@ type Flow struct {
 	terms map[ssa.Value]*Term
 	ctx   Env
 	iters int
+	// termHook, when set, replaces term construction (the path explorer binds
+	// φ-nodes, parameters and inlined call results per path)
+	termHook func(ssa.Value) *Term
 }
 
 var pureMethods = map[string]bool{
@@ -138,6 +141,9 @@ func intTypeInfo(w *World, t types.Type) (bits uint, signed bool, ok bool) {
 }
 
 func (f *Flow) term(v ssa.Value) *Term {
+	if f.termHook != nil {
+		return f.termHook(v)
+	}
 	if t, ok := f.terms[v]; ok {
 		return t
 	}
@@ -712,8 +718,22 @@ func (f *Flow) refine(env Env, cond *Term, truth bool) (Env, bool) {
 				return out, true
 			}
 		}
-		// a φ of booleans: nothing to learn
-		return env, true
+		// an opaque boolean: remember its outcome under its own key
+		out := env.clone()
+		if truth {
+			out[cond.key] = single(1)
+		} else {
+			out[cond.key] = single(0)
+		}
+		return out, true
+	case TPure:
+		out := env.clone()
+		if truth {
+			out[cond.key] = single(1)
+		} else {
+			out[cond.key] = single(0)
+		}
+		return out, true
 	case TBin:
 		op := cond.Op
 		switch op {
@@ -723,6 +743,15 @@ func (f *Flow) refine(env Env, cond *Term, truth bool) (Env, bool) {
 		}
 		if !truth {
 			op = negOp(op)
+		}
+		// x OP x is decided whatever x is
+		if cond.A.key == cond.B.key {
+			switch op {
+			case token.EQL, token.LEQ, token.GEQ:
+				return env, true
+			default:
+				return env, false
+			}
 		}
 		a, _ := f.Eval(cond.A, env)
 		b, _ := f.Eval(cond.B, env)
@@ -1182,19 +1211,32 @@ func (f *Flow) ValueAt(v ssa.Value, b *ssa.BasicBlock) (ISet, evalFlags) {
 // isTagPredicate: package-level function of the hessian package with
 // signature func(byte) bool.
 func (w *World) isTagPredicate(fn *ssa.Function) bool {
+	_, ok := w.predDomain(fn)
+	return ok
+}
+
+// predDomain: fn is a pure single-parameter predicate over a small integer
+// domain (a tag octet, a reflect.Kind); returns the domain's upper bound.
+func (w *World) predDomain(fn *ssa.Function) (int, bool) {
 	if fn == nil || fn.Pkg != w.Pkg || fn.Signature.Recv() != nil || fn.Parent() != nil {
-		return false
+		return 0, false
 	}
 	sig := fn.Signature
 	if sig.Params().Len() != 1 || sig.Results().Len() != 1 {
-		return false
+		return 0, false
+	}
+	r, ok := sig.Results().At(0).Type().Underlying().(*types.Basic)
+	if !ok || r.Kind() != types.Bool {
+		return 0, false
+	}
+	if typeStr(sig.Params().At(0).Type()) == "reflect.Kind" {
+		return 26, true
 	}
 	p, ok := sig.Params().At(0).Type().Underlying().(*types.Basic)
 	if !ok || p.Kind() != types.Uint8 {
-		return false
+		return 0, false
 	}
-	r, ok := sig.Results().At(0).Type().Underlying().(*types.Basic)
-	return ok && r.Kind() == types.Bool
+	return 255, true
 }
 
 // predSummary computes exactly the set of octets a tag predicate accepts.
@@ -1208,6 +1250,14 @@ func (w *World) predSummary(fn *ssa.Function) *ISet {
 		return s
 	}
 	w.preds[fn] = nil // recursion guard
+	// primary: enumerate the (small) domain with the path explorer — exact
+	// whatever the predicate's arithmetic or helper structure
+	if hi, ok := w.predDomain(fn); ok {
+		if s, ok := w.pxPredicate(fn, hi); ok {
+			w.preds[fn] = &s
+			return &s
+		}
+	}
 	f := w.flow(fn)
 	if len(fn.Params) != 1 {
 		return nil
